@@ -5,7 +5,8 @@
    usage: tools/seed_keep_all.py [<outdir-prefix> <res1> <res2>]   (defaults: /tmp/seed_ build/seedres build/seedres2)"""
 import json, os, re, shutil, sys
 
-PREFIX, RES1, RES2 = (sys.argv[1:4] + ["/tmp/seed_", "/verif/build/seedres", "/verif/build/seedres2"][len(sys.argv) - 1:])[:3]
+OUTPAT, RES1, RES2 = (sys.argv[1:4] + ["/tmp/seed_{prop}_out", "/verif/build/seedres", "/verif/build/seedres2"][len(sys.argv) - 1:])[:3]
+VARIANTS = sys.argv[4] if len(sys.argv) > 4 else "AB"
 TABLE = json.load(open(os.path.join(os.path.dirname(__file__), "seed_table.json")))
 
 
@@ -19,10 +20,14 @@ def main():
     n = 0
     for key, ent in sorted(TABLE.items()):
         prop, var = key.split("_")
-        out = "%s%s_out" % (PREFIX, prop)
+        if var not in VARIANTS:
+            continue
+        out = OUTPAT.format(prop=prop)
         patch = os.path.join(out, "patch_%s.diff" % var)
         demo = os.path.join(out, "demo_%s.py" % var)
         r2p = os.path.join(RES2, key + ".json")
+        if not os.path.exists(r2p):
+            r2p = os.path.join(RES1, key + ".json")      # not re-evaluated: the first evaluation stands
         if not (os.path.exists(patch) and os.path.exists(r2p)):
             continue
         try:
